@@ -128,6 +128,17 @@ fn regex_part(run: &Run, max_size: usize) -> Acc {
                         acc.sample(|| json!({"query": q, "pattern": p, "subjects": subs.len(), "matching": ids.len()}));
                     }
                 }
+                // pattern and subject through value(): ValueType function results as arguments
+                let q = format!("$.s[?{}(value(@),value($.p))]", f);
+                let ast = parse(&q);
+                if let Some(ids) = packed(run, &mut acc, &q, &ast, &subs, &wrap, &format!("{} arguments through value()", f)) {
+                    acc.nontrivial += ids.len() as u64;
+                }
+                let q = format!("$.s[?{}(@,value($..p))]", f);
+                let ast = parse(&q);
+                if let Some(ids) = packed(run, &mut acc, &q, &ast, &subs, &wrap, &format!("{} pattern through value() of a descendant query", f)) {
+                    acc.nontrivial += ids.len() as u64;
+                }
                 // pattern as a literal, subject through a member
                 let q = format!("$[?{}(@.s,{})]", f, quote_single(p));
                 let ast = parse(&q);
